@@ -626,6 +626,14 @@ class Engine:
                     for c_ in range(lo_c.as_long(), hi_c.as_long()):
                         st3 = State({**st.env, var.id: Val("int", z3.IntVal(c_))}, st.heap, st.pc); parts.append(self.truthy(self.ev(st3, body)))
                     return Val("bool", (z3.And(*parts) if parts else z3.BoolVal(True)) if fname == "forall" else (z3.Or(*parts) if parts else z3.BoolVal(False)))
+            if getattr(self, "expand", None):
+                # shape search (pyvc/cex.py): every range is known to lie inside a small interval, so a bounded quantifier is the guarded conjunction / disjunction of its instances
+                parts = []
+                for c_ in range(*self.expand):
+                    st3 = State({**st.env, var.id: Val("int", z3.IntVal(c_))}, st.heap, st.pc)
+                    rng_ = z3.And(self.ev(st3, lo).z <= c_, c_ < self.ev(st3, hi).z); b_ = self.truthy(self.ev(st3, body))
+                    parts.append(z3.Implies(rng_, b_) if fname == "forall" else z3.And(rng_, b_))
+                return Val("bool", z3.And(*parts) if fname == "forall" else z3.Or(*parts))
             zv = z3.Int(f"{var.id}?{next(self.fresh)}")
             st2 = State({**st.env, var.id: Val("int", zv)}, st.heap, st.pc)
             rng = z3.And(self.ev(st2, lo).z <= zv, zv < self.ev(st2, hi).z); b = self.truthy(self.ev(st2, body))
